@@ -569,4 +569,142 @@ theorem neutralizeBin_NF {op : BinOp} {l r : Arg} (hl : NF isReg l) (hr : NF isR
 
 end
 
+/-! ## `neutralize_raw` itself (with the swap) -/
+
+theorem fnd_bin_false {ty op : BinOp} {x y : Arg} (hch : chainOp op = true) (hsf : sameFam ty op = true)
+    (hxy : ¬ (isC x = true ∧ isC y = true)) (hnx : nb x = true) (h : fnd ty (.bin op x y) = false) :
+    fnd ty x = false ∧ fnd ty y = false := by
+  unfold fnd at h ⊢
+  simp only [isC_bin, Bool.false_or, findC, hch, hsf, if_true] at h
+  cases hx : cval x with
+  | some a =>
+    cases hy : cval y with
+    | some b => exact (hxy ⟨cval_some_isC hx, cval_some_isC hy⟩).elim
+    | none => simp [hx, hy, Find.isFound] at h
+  | none =>
+    cases hy : cval y with
+    | some b => simp [hx, hy, Find.isFound] at h
+    | none =>
+      simp only [hx, hy] at h
+      have hx' : isC x = false := cval_none_iff.1 hx
+      have hy' : isC y = false := cval_none_iff.1 hy
+      simp only [hx', hy', Bool.false_or]
+      cases hf : findC ty x false with
+      | found c s => simp [hf, Find.isFound] at h
+      | panic => exact absurd hf (findC_ne_panic ty x hnx false)
+      | none =>
+        simp only [hf] at h
+        rw [findC_isFound_inv] at h
+        exact ⟨by simp [Find.isFound], h⟩
+
+theorem fnd_bin_intro {ty op : BinOp} {x y : Arg} (hx : fnd ty x = false) (hy : fnd ty y = false) :
+    fnd ty (.bin op x y) = false := by
+  unfold fnd at hx hy ⊢
+  simp only [Bool.or_eq_false_iff] at hx hy
+  have cx : cval x = none := cval_none_iff.2 hx.1
+  have cy : cval y = none := cval_none_iff.2 hy.1
+  have hx2 : findC ty x false = .none ∨ findC ty x false = .panic := by
+    cases hf : findC ty x false with
+    | found c s => rw [hf] at hx; simp [Find.isFound] at hx
+    | none => exact .inl rfl
+    | panic => exact .inr rfl
+  simp only [isC_bin, Bool.false_or, findC, cx, cy]
+  split
+  · split
+    · rcases hx2 with h | h
+      · rw [h]; simp only; rw [findC_isFound_inv]; exact hy.2
+      · rw [h]; rfl
+    · rfl
+  · split
+    · split
+      · exact hx.2
+      · rfl
+    · rfl
+
+section
+variable {isReg : Bytes → Bool}
+
+theorem NF_bin_inv {op : BinOp} {l r : Arg} (h : NF isReg (.bin op l r)) :
+    NF isReg l ∧ NF isReg r ∧ simplifyRaw (.bin op l r) = .ok (false, .bin op l r) := by
+  simpa only [NF] using h
+
+theorem ne_bin_self (op : BinOp) (x y : Arg) : x ≠ .bin op x y := by
+  intro h
+  have := congrArg sizeOf h
+  simp at this
+  omega
+
+/-- an `NF` difference does not subtract `0` -/
+theorem NF_sub_rhs {x y : Arg} (h : NF isReg (.bin .sub x y)) : y ≠ .const 0 := by
+  rintro rfl
+  obtain ⟨hx, _, hf⟩ := NF_bin_inv h
+  obtain ⟨b1, _, hlr, hn, _, _⟩ := lfix_bin hf
+  have hcx : cval x = none := by
+    cases hc : cval x with
+    | none => rfl
+    | some v => exact (hlr ⟨cval_some_isC hc, rfl⟩).elim
+  have hbin : neutralizeRaw (.bin .sub x (.const 0)) = neutralizeBin .sub x (.const 0) := by
+    rcases neutralizeRaw_bin_cases .sub x (.const 0) with h0 | ⟨_, _, _, _, hh, _⟩
+    · exact h0
+    · cases hh
+  rw [hbin] at hn
+  have e : neutralizeBin .sub x (.const 0) = .ok (false, x) := by
+    have hnorm : normAddSub (decide True) (.const 0) = .ok (false, true, .const 0) := by
+      show normAddSub true (.const 0) = _
+      exact normAddSub_fix (fun n h => by cases h) (fun v hv => by simp only [cval, Option.some.injEq] at hv; omega)
+    simp only [neutralizeBin, or_true, if_true, hnorm]
+    rw [neutralTail_intro b1 (show isBad (Arg.const 0) = false from rfl)]
+    unfold neutralMain
+    simp only [hcx]
+    simp [cval, neutralR]
+  rw [e] at hn
+  simp only [Res.ok.injEq, Prod.mk.injEq, true_and] at hn
+  exact ne_bin_self _ _ _ hn
+
+theorem bothFound_sub_comm {x y : Arg} : bothFound .sub y x = bothFound .sub x y := by
+  rw [bothFound_eq _ _ _ (by intro h; cases h), bothFound_eq _ _ _ (by intro h; cases h), Bool.and_comm]
+
+/-- the swapped difference of an `NF` difference -/
+theorem neutralizeBin_swap_NF {x y : Arg} (h : NF isReg (.bin .sub x y)) {c : Bool} {a' : Arg}
+    (he : neutralizeBin .sub y x = .ok (c, a')) : NF isReg a' ∧ isBad a' = false := by
+  obtain ⟨hx, hy, hf⟩ := NF_bin_inv h
+  obtain ⟨_, _, hlr, _, hb, _⟩ := lfix_bin hf
+  refine neutralizeBin_NF hy hx (fun ⟨p, q⟩ => hlr ⟨q, p⟩) (fun _ => ?_) (fun hx => by cases hx) (fun hy0 _ => ?_) he
+  · rw [bothFound_sub_comm]; exact hb rfl
+  · exact absurd hy0 (NF_sub_rhs h)
+
+/-- **`neutralize_raw` on a binary node with `NF` operands that cannot be merged yields an `NF` tree** -/
+theorem neutralizeRaw_bin_NF {op : BinOp} {l r : Arg} (hl : NF isReg l) (hr : NF isReg r)
+    (hlr : ¬ (isC l = true ∧ isC r = true))
+    (hb : mergeable op = true → bothFound op l r = false) (hm : op = .mod → modCollapse l r = false)
+    {c : Bool} {a' : Arg} (he : neutralizeRaw (.bin op l r) = .ok (c, a')) : NF isReg a' ∧ isBad a' = false := by
+  by_cases h2 : op = .sub ∧ l = .const 0 ∧ ∃ x y, r = .bin .sub x y
+  · obtain ⟨rfl, rfl, x, y, rfl⟩ := h2
+    rw [neutralizeRaw_zero_sub] at he
+    obtain ⟨_, c', he'⟩ := swapped_ok he
+    exact neutralizeBin_swap_NF hr he'
+  · rcases neutralizeRaw_bin_cases op l r with h0 | ⟨x, y, h3, h4, h5, _⟩
+    · rw [h0] at he
+      exact neutralizeBin_NF hl hr hlr hb hm (fun e1 e2 x y e3 => h2 ⟨e2, e1, x, y, e3⟩) he
+    · exact absurd ⟨h3, h4, x, y, h5⟩ h2
+
+/-- `neutralize_raw` on a `Negate` node with an `NF` operand -/
+theorem neutralizeRaw_neg_NF {v : Arg} (hv : NF isReg v) (hc : isC v = false) (hbad : isBad v = false)
+    {c : Bool} {a' : Arg} (he : neutralizeRaw (.neg v) = .ok (c, a')) : NF isReg a' ∧ isBad a' = false := by
+  by_cases h2 : ∃ x y, v = .bin .sub x y
+  · obtain ⟨x, y, rfl⟩ := h2
+    rw [neutralizeRaw_neg_sub] at he
+    obtain ⟨_, c', he'⟩ := swapped_ok he
+    exact neutralizeBin_swap_NF hv he'
+  · rcases neutralizeRaw_neg_cases v with h0 | ⟨x, y, h3, _⟩
+    · rw [h0] at he
+      simp only [Res.ok.injEq, Prod.mk.injEq] at he
+      obtain ⟨_, rfl⟩ := he
+      refine ⟨?_, rfl⟩
+      simp only [NF]
+      exact ⟨hv, lfix_neg_intro hbad hc (fun x y e => h2 ⟨x, y, e⟩)⟩
+    · exact absurd ⟨x, y, h3⟩ h2
+
+end
+
 end Trion.Simp
